@@ -123,13 +123,14 @@ def write_overlay(path):
         json.dump({"Replace": rep}, f)
 
 
-def netns_wrap(cmd):
+def netns_wrap(cmd, mountns=False):
     """Run cmd in a private network namespace with lo up (ports always free).
     Falls back to running directly if unshare is not permitted."""
     probe = subprocess.run(["unshare", "-n", "true"], stdout=subprocess.DEVNULL, stderr=subprocess.DEVNULL)
     if probe.returncode != 0:
         return cmd
-    return ["unshare", "-n", "sh", "-c", 'ip link set lo up && exec "$@"', "sh"] + cmd
+    flags = ["-n", "-m"] if mountns else ["-n"]
+    return ["unshare"] + flags + ["sh", "-c", 'ip link set lo up && exec "$@"', "sh"] + cmd
 
 
 def count_obligations(files):
